@@ -398,13 +398,13 @@ Qed.
 
 Lemma solve_inv (net : netlist K) sched T : solve net sched = Ok T ->
   NoDup (conn_ends (conns net)) /\
-  solve_sched (conns net) (map lst_of_comp (comps net)) sched = Ok [T] /\
+  solve_sched (conns net) (comps net) sched = Ok [T] /\
   (forall p, In p (l_pins T) -> partner (conns net) p = None) /\
-  NoDup (allpins (map lst_of_comp (comps net))) /\
-  (forall p, In p (conn_ends (conns net)) -> In p (allpins (map lst_of_comp (comps net)))).
+  NoDup (allpins (comps net)) /\
+  (forall p, In p (conn_ends (conns net)) -> In p (allpins (comps net))).
 Proof.
   unfold solve. destruct (nodupb (conn_ends (conns net))) eqn:E0; simpl; [|discriminate].
-  destruct (nodupb (allpins (map lst_of_comp (comps net)))) eqn:E00; simpl; [|discriminate].
+  destruct (nodupb (allpins (comps net))) eqn:E00; simpl; [|discriminate].
   destruct (forallb _ (conn_ends (conns net))) eqn:E01; simpl; [|discriminate].
   intros H. apply bind_ok in H. destruct H as (live & Hl & H).
   destruct live as [|T' [|? ?]]; try discriminate.
@@ -416,16 +416,55 @@ Proof.
   - intros p Hp. rewrite forallb_forall in E01. apply mem_In. apply E01. exact Hp.
 Qed.
 
+(* pins only disappear *)
+Lemma allpins_In (live : list (lst K)) L p : In L live -> In p (l_pins L) -> In p (allpins live).
+Proof.
+  intros HL Hp. unfold allpins. apply in_concat. exists (l_pins L). split; [|exact Hp].
+  apply in_map. exact HL.
+Qed.
+
+Lemma join_pins cs (A B C : lst K) : join cs A B = Ok C ->
+  l_pins C = keep (map fst (links cs A B)) (l_pins A) ++ keep (map snd (links cs A B)) (l_pins B).
+Proof. intros H. apply join_inv in H. cbv zeta in H. destruct H as (_ & _ & P & _ & ->). reflexivity. Qed.
+
+Lemma merge_step_sub cs (live live' : list (lst K)) ij :
+  merge_step cs live ij = Ok live' -> forall p, In p (allpins live') -> In p (allpins live).
+Proof.
+  unfold merge_step. destruct ij as [i j]. intros H.
+  destruct (Nat.eqb i j || negb (i <? length live) || negb (j <? length live)) eqn:E; [discriminate|].
+  apply orb_false_iff in E. destruct E as [E Ej]. apply orb_false_iff in E. destruct E as [_ Ei].
+  apply negb_false_iff, Nat.ltb_lt in Ei. apply negb_false_iff, Nat.ltb_lt in Ej.
+  apply bind_ok in H. destruct H as (C & HC & H). injection H as <-.
+  intros p Hp. unfold allpins in Hp. apply in_concat in Hp. destruct Hp as (l & Hl & Hp).
+  apply in_map_iff in Hl. destruct Hl as (L & <- & HL).
+  apply in_app_or in HL. destruct HL as [HL|[<-|[]]].
+  - eapply allpins_In; [|exact Hp]. eapply In_remove_nth. eapply In_remove_nth. exact HL.
+  - rewrite (join_pins _ _ _ _ HC) in Hp. apply in_app_or in Hp.
+    destruct Hp as [Hp|Hp]; apply keep_In in Hp; destruct Hp as [Hp _].
+    + eapply allpins_In; [apply nth_In; exact Ei | exact Hp].
+    + eapply allpins_In; [apply nth_In; exact Ej | exact Hp].
+Qed.
+
+Lemma solve_sched_sub cs sched : forall (live live' : list (lst K)),
+  solve_sched cs live sched = Ok live' -> forall p, In p (allpins live') -> In p (allpins live).
+Proof.
+  induction sched as [|ij rest IH]; intros live live' H p Hp; simpl in H.
+  - injection H as <-. exact Hp.
+  - apply bind_ok in H. destruct H as (live1 & H1 & H2).
+    eapply merge_step_sub; [exact H1|]. eapply IH; eassumption.
+Qed.
+
 (* THE property: whatever the schedule, a returned result reports the network's solution *)
 Theorem solve_sound (net : netlist K) sched T : solve net sched = Ok T -> reports net T.
 Proof.
   intros H. apply solve_inv in H. destruct H as (_ & Hs & Hfree & _ & _).
   intros u a b (E1 & E2 & E3).
   assert (HT : Sem T a b).
-  { eapply (solve_sched_sound _ _ _ _ a b Hs E2); [|left; reflexivity].
-    intros L HL. apply in_map_iff in HL. destruct HL as (c & <- & Hc). apply E1. exact Hc. }
+  { eapply (solve_sched_sound _ _ _ _ a b Hs E2); [|left; reflexivity]. exact E1. }
   intros i Hi. rewrite (HT i Hi). apply (bigsum_ext K KL). intros j Hj.
-  rewrite (E3 (nth j (l_pins T) dpin)); [reflexivity|]. apply Hfree. apply nth_In. exact Hj.
+  assert (Hin : In (nth j (l_pins T) dpin) (l_pins T)) by (apply nth_In; exact Hj).
+  rewrite (E3 (nth j (l_pins T) dpin)); [reflexivity | | apply Hfree; exact Hin].
+  apply (solve_sched_sub _ _ _ _ Hs). unfold allpins; simpl. rewrite app_nil_r. exact Hin.
 Qed.
 
 End SolveProofs.
